@@ -765,7 +765,10 @@ func (c *compiler) checkVarConflict(name unistring.String, offset int) {
 		if b, exists := sc.boundNames[name]; exists && !b.isVar && !(b.isArg && sc != c.scope) {
 			c.throwSyntaxErrorf(offset, "Identifier '%s' has already been declared", name)
 		}
-		if sc.isFunction() {
+		if sc.isFunction() || sc.variable {
+			// sc.variable: the body scope of a function with a non-simple parameter list (or strict eval code).
+			// Names bound in the parameter scope outside it (destructured / rest parameters, the name of the
+			// function expression) never conflict with var declarations of the body.
 			break
 		}
 	}
